@@ -396,6 +396,58 @@ func c15Run(rc *RunCtx) *Violation {
 	if bt != inst[1] && bt != inst[2] {
 		return rc.Viol("binding.invalid", fmt.Sprintf("A is encrypted but bound to %#x, which is no instance of the peer", bt), map[string]string{"malformed": "final"})
 	}
+	// 6. a second client of A's account that has not sent anything yet - its own tag is not
+	// generated, so NO receiver tag other than 0 can be its own - sees what the peer sent to A
+	{
+		var toA []*Wire
+		for _, x := range w.Arch {
+			if x.To == 0 && x.Genuine {
+				if s, rt, ok := tagsOf(x.Bytes); ok && s >= 0x100 && rt >= 0x100 {
+					toA = append(toA, x)
+				}
+			}
+		}
+		for k := 0; k < 6 && k < len(toA); k++ {
+			x := toA[(int(rc.Seed%7)+k*5)%len(toA)]
+			c := &otr3.Conversation{}
+			c.Policies.AllowV3()
+			c.Rand = NewSimRand(Mix(rc.Seed, "c15fresh", uint64(k)), nil)
+			c.SetOurKeys([]otr3.PrivateKey{SharedKey(0)})
+			var plain otr3.MessagePlaintext
+			var out []otr3.ValidMessage
+			pan := ""
+			func() {
+				defer func() {
+					if e := recover(); e != nil {
+						pan = fmt.Sprint(e)
+					}
+				}()
+				plain, out, _ = c.Receive(cp(x.Bytes))
+			}()
+			_, rt, _ := tagsOf(x.Bytes)
+			var bad []string
+			if pan != "" {
+				bad = append(bad, "panic: "+pan)
+			}
+			if plain != nil {
+				bad = append(bad, "plaintext")
+			}
+			if len(out) > 0 {
+				bad = append(bad, "reply")
+			}
+			if c.GetTheirInstanceTag() != 0 {
+				bad = append(bad, "bound")
+			}
+			if c.IsEncrypted() {
+				bad = append(bad, "encrypted")
+			}
+			if len(bad) > 0 {
+				return rc.Viol("isolation", fmt.Sprintf("a conversation that has no own tag yet did not ignore %s addressed to instance %#x: %v", short(x.Bytes), rt, bad),
+					map[string]string{"what": "fresh client without own tag", "effect": bad[0]})
+			}
+			rc.Probe("fresh_client_ignored")
+		}
+	}
 	rc.Stats.Nontrivial = retagged >= 3
 	rc.Stats.Sig = fmt.Sprintf("f%d %s", rc.Cfg["frag"], kinds)
 	rc.ProbeN("retagged_delivered", retagged)
